@@ -215,3 +215,5 @@ more.register(globals(), {"C05", "C02", "C09"}, ["gen_nested"], {"gen_nested": [
 
 import s2_found as found
 found.register(globals(), {"C05", "C02", "C03"}, ["inner_join_failure"])
+
+found.register(globals(), {"C05", "C02", "C03"}, ["falsy_branch_output"])
